@@ -58,10 +58,9 @@ def gen_api(rng):
     items = []                                          # (date, phase, tiebreak, op)
     tcre = []
     lazy_all = rng.random() < 0.2                       # many late things in this case
+    tcre = sorted(late(0.1 if not lazy_all else 0.4) for _ in range(n))      # ids are creation ranks
     for i in range(n):
-        t = late(0.1 if not lazy_all else 0.4)
-        tcre.append(t)
-        items.append((t, 0, rng.random(), ("C", kinds[i], durs[i])))
+        items.append((tcre[i], 0, i, ("C", kinds[i], durs[i])))
     for (a, b) in edges:
         t = max(tcre[a], tcre[b])
         if rng.random() < 0.05:
@@ -70,13 +69,13 @@ def gen_api(rng):
     has_pred = set(b for _, b in edges)
     for i in range(n):
         r = rng.random()
-        if r < 0.93:                                    # assigned: right after creation / at some later date
+        if r < 0.985:                                   # assigned: right after creation / at some later date
             t = tcre[i] if rng.random() < 0.55 else max(tcre[i], late(0.8))
             items.append((t, 2 if kinds[i] == 1 and i in has_pred else rng.choice([0.5, 2]), rng.random(), ("G", i)))
             if rng.random() < 0.04:
                 items.append((max(t, late(0.5)), 2, rng.random(), ("G", i)))
         if i not in has_pred or rng.random() < 0.5:
-            if rng.random() < 0.95:
+            if rng.random() < 0.985:
                 items.append((max(tcre[i], late(0.25)), 2, rng.random(), ("S", i)))
                 if rng.random() < 0.05:
                     items.append((max(tcre[i], late(0.5)), 2, rng.random(), ("S", i)))
@@ -535,8 +534,9 @@ def run(ctx):
         dist["edges"] += sum(1 for o in script if o[0] == "A")
         dist["with_comm_or_io"] += any(k for k in kinds.values())
         dist["throws"] += info["err"] is not None
+        dist["throws_" + str(c["mode"])] = dist.get("throws_" + str(c["mode"]), 0) + (info["err"] is not None)
         dist["late_assign"] += any(o[0] == "G" and any(p[0] == "U" for p in script[:i]) for i, o in enumerate(script))
-        dist["not_all_finished"] += any(s != "FINISHED" for s in info["states"])
+        dist["not_all_finished"] += any(s not in ("FINISHED", "NONE") for s in info["states"])
         ctx.case(json.dumps(small, sort_keys=True, default=str), nontriv,
                  {"script": script[:40], "impl": {b: [str(x) for x in t[:2]] for b, t in list(tab.items())[:6]}} if nontriv else None)
         # O: the verified monitor on the implementation's log
@@ -559,6 +559,8 @@ def run(ctx):
             t = tab.get(i, [None, None])
             tk = lambda d: -1 if d is None else int(d * (1 << scale))
             it.append([ST.get(info["states"][i], 9), tk(t[0]), tk(t[1])])
+        while len(it) > len(mt) and it[-1] == [0, -1, -1]:
+            it.pop()
         mt_s = [[x[0], x[1] * unit if x[1] >= 0 else -1, x[2] * unit if x[2] >= 0 else -1] for x in mt]
         if stat == 2:
             ctx.mismatch("generator", "script leaves the modelled domain at op %d: %s" % (k, script), small)
